@@ -66,6 +66,9 @@ pub struct PropDef {
     /// observable compared between implementation and model
     pub project: fn(&Outcome) -> Outcome,
     pub deadline_ms: u64,
+    /// optional check on the model's labelled output (route 2): (case, impl result, model
+    /// outcome, per line / per element character labels)
+    pub check_model: Option<fn(usize, &Case, &RunResult, &Outcome, &Vec<Vec<Vec<u64>>>) -> Option<Violation>>,
 }
 
 pub fn case_counter() -> usize {
@@ -399,7 +402,7 @@ fn nontrivial_c04(_c: &Case, r: &RunResult) -> bool {
 // ======================================================================
 pub fn prop_def(id: &str) -> Option<PropDef> {
     match id {
-        "C04" => Some(PropDef { id: "C04", generate: gen_c04, check: check_c04, nontrivial: nontrivial_c04, project: ident, deadline_ms: 20000 }),
+        "C04" => Some(PropDef { id: "C04", generate: gen_c04, check: check_c04, nontrivial: nontrivial_c04, project: ident, deadline_ms: 20000, check_model: None }),
         other => crate::props2::prop_def2(other),
     }
 }
@@ -518,11 +521,17 @@ pub fn run_property(prop: &str, tier: &str, seed: u64, outdir: &str, driver: &st
     let mut disagreements: Vec<usize> = Vec::new();
     let mut model_missing = 0usize;
     let mut model_outcomes: HashMap<usize, Outcome> = HashMap::new();
+    let mut model_violations: Vec<Violation> = Vec::new();
     for (i, _) in &model_in {
         match model_out.get(i).and_then(|w| outcome_from_wire(w)) {
-            Some((mo, _)) => {
+            Some((mo, labels)) => {
                 let r = results[*i].as_ref().unwrap();
                 compared += 1;
+                if let Some(f) = def.check_model {
+                    if let Some(v) = f(*i, &cases[*i], r, &mo, &labels) {
+                        model_violations.push(v);
+                    }
+                }
                 let pi = (def.project)(&r.outcome);
                 let pm = (def.project)(&mo);
                 if !agree(&pi, &pm) {
@@ -536,6 +545,7 @@ pub fn run_property(prop: &str, tier: &str, seed: u64, outdir: &str, driver: &st
 
     // ---- checkers on the implementation's output ----
     let mut violations = (def.check)(&cases, &results);
+    violations.extend(model_violations.into_iter());
     let known = known_findings(prop);
     let known_keys: HashSet<String> = known.iter().map(|(k, _)| k.clone()).collect();
     // a violation inside a listed class where the implementation still agrees with the
